@@ -870,7 +870,10 @@ class Interp:
         import builtins
         if hasattr(builtins, e.id):
             return getattr(builtins, e.id)
-        raise PyRaise(NameError(e.id))
+        # a name that is neither local, nor of an enclosing scope the contract's setup provides, nor global, nor built in: the
+        # function refers to something the contract does not know (e.g. a new sibling closure) - outside the contract, not a NameError
+        # of the program (the code under check compiles and its tests pass)
+        raise Unsupported(f"the function refers to the name '{e.id}' which the contract's setup does not provide (new enclosing-scope variable or helper)")
 
     def wrap_global(self, v, module):
         """Repository functions become Closures over their *source text*."""
